@@ -6,12 +6,14 @@
 //	ops   = ((0 i) AddNode(names[i]) | (1 i) RemoveNode(names[i])) ...
 //	keys  = byte strings
 //
-// observed = one entry per op, taken after the op: ((r_1 .. r_k) repeat_equal)
+// observed = one entry per op, taken after the op: ((r_1 .. r_k) repeat_equal cache_len cache_ok)
 //
 //	r_j = index in names of GetNodeBy(key_j); -1 the call panicked (empty ring);
 //	-2 a string that is not in the table; -3 the op itself panicked.
 //	repeat_equal = 1 iff a second round of the same lookups, made in reverse
 //	order, gave the same answers.
+//	cache_len = len(sortedHash); cache_ok = 1 iff sortedHash is exactly the sorted key
+//	set of the circle map (verif probe).
 package main
 
 import (
@@ -62,7 +64,7 @@ func decode(in Sx) history {
 }
 
 // play runs the real code on a history and returns, per op, the answers to all keys.
-func play(h history) (res [][]int64, rep []bool) {
+func play(h history) (res [][]int64, rep []bool, cache [][2]int64) {
 	idx := map[string]int64{}
 	for i, n := range h.names {
 		if _, dup := idx[n]; !dup {
@@ -107,18 +109,27 @@ func play(h history) (res [][]int64, rep []bool) {
 		}
 		res = append(res, cur)
 		rep = append(rep, same)
+		cl, _, cok := c.VerifCache()
+		ck := int64(0)
+		if cok {
+			ck = 1
+		}
+		cache = append(cache, [2]int64{int64(cl), ck})
 	}
 	return
 }
 
-func run(in Sx) Sx {
-	h := decode(in)
-	res, rep := play(h)
+func obsSx(res [][]int64, rep []bool, cache [][2]int64) Sx {
 	obs := make([]Sx, len(res))
 	for i := range res {
-		obs[i] = List(Ints(res[i]...), Bool(rep[i]))
+		obs[i] = List(Ints(res[i]...), Bool(rep[i]), Int(cache[i][0]), Int(cache[i][1]))
 	}
 	return ListOf(obs)
+}
+
+func run(in Sx) Sx {
+	h := decode(in)
+	return obsSx(play(h))
 }
 
 // holds evaluates the four sentences of the property on the implementation's answers
@@ -309,20 +320,22 @@ func gen(a Args, out *Out) {
 
 	emit := func(kind string, h history) {
 		// (a) the recorded case: model and property are evaluated in Coq
-		res, rep := play(h)
-		obs := make([]Sx, len(res))
-		for i := range res {
-			obs[i] = List(Ints(res[i]...), Bool(rep[i]))
-		}
-		out.Case(kind, len(h.ops) >= 2, h.sx(), ListOf(obs))
+		res, rep, cache := play(h)
+		out.Case(kind, len(h.ops) >= 2, h.sx(), obsSx(res, rep, cache))
 		out.Count(fmt.Sprintf("ops:%02d-%02d", len(h.ops)/5*5, len(h.ops)/5*5+4))
 		for _, o := range h.ops {
 			out.Count([]string{"op:add", "op:remove"}[o[0]])
 		}
 		// (b) the same history with a dense key sample: the property itself, in Go
 		d := history{names: h.names, ops: h.ops, keys: append(append([]string{}, h.keys...), randKeys(rng.Fork(), nDense, h.names)...)}
-		dres, drep := play(d)
+		dres, drep, dcache := play(d)
 		out.GoChecked += int64(len(d.keys) * len(d.ops))
+		for t := range dcache {
+			if dcache[t][1] != 1 {
+				out.Violation("C17/cache/"+kind, "the cached sorted point list is not the sorted key set of the ring map", List(h.sx(), run(h.sx())))
+				break
+			}
+		}
 		if w, bad := holds(d, dres, drep); w != 0 {
 			if len(bad) > 12 {
 				bad = bad[:12]
